@@ -54,7 +54,11 @@ pub fn read<'a>(fmt: Format, read: impl io::BufRead + 'a, s: &'a str, slurp: boo
 /// Parse values from [`Bytes`] or [`&str`], depending on format.
 pub fn parse<'a>(fmt: Format, bytes: &'a Bytes, s: &'a str, slurp: bool) -> Vals<'a> {
     use bstr::ByteSlice;
-    let nul_sep = |s: &'a [u8]| s.strip_suffix(b"\0").unwrap_or(bytes).split_str("\0");
+    // like for standard input, empty input contains no value (not one empty string)
+    let nul_sep = |s: &'a [u8]| {
+        let records = s.strip_suffix(b"\0").unwrap_or(s).split_str("\0");
+        records.filter(|_| !s.is_empty())
+    };
     let slice_to_str = |s| Ok(Val::utf8_str(bytes.slice_ref(s)));
     let iter = bytes.iter().copied().map(Ok::<u8, io::Error>);
     match fmt {
